@@ -261,6 +261,19 @@ def mdoc_s():
                                   "d": st.one_of(st.none(), st.sampled_from(MDATES_W), st.sampled_from(MDATES_W))})
 
 
+def fgroup_tree_s():
+    word = st.builds(lambda x: {"op": "term", "f": "w", "x": x}, st.sampled_from(["x", "y", "z"]))
+
+    def extend(ch):
+        return st.one_of(
+            st.builds(lambda qs: {"op": "and", "qs": qs}, st.lists(ch, min_size=2, max_size=3)),
+            st.builds(lambda qs: {"op": "or", "qs": qs}, st.lists(ch, min_size=2, max_size=3)),
+            st.builds(lambda q: {"op": "not", "q": q}, ch),
+            st.builds(lambda qs: {"op": "implicit", "qs": qs}, st.lists(ch, min_size=2, max_size=3)),
+        )
+    return st.recursive(word, extend, max_leaves=5).filter(lambda t: t["op"] != "term")
+
+
 def mleaf_s():
     word = st.sampled_from(MW[:5])
     return st.one_of(
@@ -296,6 +309,8 @@ def mleaf_s():
         st.builds(lambda a, pa, b, pb: {"op": "dtrange", "a": a, "pa": pa, "b": b, "pb": pb},
                   st.one_of(st.none(), st.sampled_from(MDATES_W)), st.sampled_from(DPREC),
                   st.sampled_from(MDATES_W), st.sampled_from(DPREC)),
+        # a field prefix on a parenthesised group reaches every bare word inside it, nested groups included
+        st.builds(lambda g: {"op": "fgroup", "f": "w", "q": g}, fgroup_tree_s()),
         # one-sided ranges typed with a comparison operator (GtLtPlugin: > < >= <= => =<, after a field name)
         st.builds(lambda f, rel, x: {"op": "cmp", "f": f, "rel": rel, "x": x[0 if f == "n" else 1]},
                   st.sampled_from(["n", "n", "t"]), st.sampled_from([">", "<", ">=", "<=", "=>", "=<"]),
@@ -370,6 +385,10 @@ def render(q, case, ctx_field="t"):
         return "d:[%sTO %s]" % (lo, date_text(q["b"], q["pb"])), PREC["leaf"]
     if op == "cmp":
         return "%s:%s%s" % (q["f"], q["rel"], q["x"]), PREC["leaf"]
+    if op == "fgroup":
+        # inside the group the words are bare: the group's field is their context
+        inner, _ = render(q["q"], case, ctx_field=q["f"])
+        return "%s:(%s)" % (q["f"], inner), PREC["leaf"]
     if op in ("trange", "nrange"):
         # open ends exactly as documented in querylang.rst: "[apple TO]" and "[TO bear]"
         lo = "" if q["start"] is None else "%s " % q["start"]
@@ -414,6 +433,8 @@ def to_ref(q, group):
     if op == "bool":
         # the BOOLEAN field f, modelled as a one-word text field fb holding "true" / "false"
         return {"op": "every", "f": "fb"} if q["x"] == "*" else {"op": "term", "f": "fb", "x": q["x"]}
+    if op == "fgroup":
+        return to_ref(q["q"], group)
     if op == "dterm":
         return {"op": "drange", "f": "d", "start": date_floor(q["dt"], q["p"]), "end": date_ceil(q["dt"], q["p"])}
     if op == "dtrange":
